@@ -31,6 +31,8 @@ def run(ctx: Ctx) -> None:
     _memo.rule_subject_drift(ctx, ['graphiq/solvers/solver_base.py', 'graphiq/solvers/evolutionary_solver.py'])
     solvers.rule_rng(ctx)
     solvers.rule_sethash(ctx, [EVO, HYB, SB])
+    solvers.rule_score_fresh(ctx)
+    solvers.rule_noise_keys_cover(ctx)
     solvers.rule_hof_copy(ctx)
     shapes.rule_hof_order(ctx)
     solvers.rule_result_provenance(ctx, EVO, "EvolutionarySolver.solve", True)
@@ -40,6 +42,8 @@ def run(ctx: Ctx) -> None:
 
 
 KNOCKOUTS = [
+    Knockout("member-rescoring-skipped-when-node-count-unchanged", EVO, sub_once("                transformation(circuit)\n                circuit.validate()\n", "                n_nodes = circuit.dag.number_of_nodes()\n                transformation(circuit)\n                circuit.validate()\n                if i > 0 and circuit.dag.number_of_nodes() == n_nodes:\n                    continue\n"), "score.fresh", "skipped on some path"),
+    Knockout("noise-flag-from-one-qubit-sections-only", EVO, sub_once("            self.noise_simulation = True\n", "            self.noise_simulation = any(len(noise_model_mapping.get(k, {})) > 0 for k in (\"e\", \"p\"))\n"), "keys.cover", "summarised over"),
     Knockout("hof-seeded-directly", "graphiq/solvers/hybrid_solvers.py", sub_once("        _, ideal_circuit = deterministic_solver.result\n", "        s0, ideal_circuit = deterministic_solver.result\n        self.hof[0] = (s0, ideal_circuit)\n"), "own.hof", "outside update_hof"),
     Knockout("hof-order-gt", SB, sub_once("                elif score < self.hof[i][0]:", "                elif score > self.hof[i][0]:"), "hof.order", "update_hof"),
     Knockout("hof-order-wrong-position", SB, sub_nth("self.hof.insert(i, (score, circuit.copy()))", "self.hof.insert(0, (score, circuit.copy()))", 1), "hof.order", "update_hof"),
